@@ -365,7 +365,7 @@ func (f *poolFam) checkGet(r *hx.Run, byCount bool, height, maxTx int, txl []*tc
 
 func (f *poolFam) Gen(r *hx.Run) {
 	r.Rule("op sequences (add/del/clean/get/unv/remain/has/status) over 3..14 transaction ids with verification heights around the queried heights; every get is executed 3 times (fresh Go map order) and its last observation is re-checked by the model through a witness order; distinct non-trivial = distinct (ops multiset signature, final size) of cases with at least one refused duplicate add and one get that was cut by the count or reported stale entries")
-	nCases := r.Pick(1500, 60000)
+	nCases := r.Pick(5000, 150000)
 	for c := 0; c < nCases; c++ {
 		r.Case(fmt.Sprintf("seq-%d", c))
 		nIds := 3 + r.Rng.Intn(12)
